@@ -415,6 +415,13 @@ func c01Shifts(c *Ctx, r *Result) {
 			}
 			site := ord.key(key, "shift", accessPath(bo.Y))
 			pos := c.Pos(c.InstrPos(in))
+			if bo.Op == token.SHL && bitTestOnly(bo) {
+				// 1<<i used only as `mask & (1<<i) <cmp> 0`: a count at or beyond the width gives 0 in
+				// Go (no wrap), i.e. "bit not set" — the right answer for a bit no rule can own
+				// because the allocating shift (the instance above) is bounded.
+				r.Instance("R01c", site, pos, "ok", "the shifted value is only used to test a bit of a mask (x & (1<<i) compared with 0): an over-wide count reads as 'not set', nothing is stored", true)
+				return
+			}
 			f := FactsAt(in)
 			if f.upperBound(bo.Y, width) {
 				r.Instance("R01c", site, pos, "ok", fmt.Sprintf("shift count %s is bounded below %d by a dominating condition", accessPath(bo.Y), width), true)
@@ -426,6 +433,53 @@ func c01Shifts(c *Ctx, r *Result) {
 		})
 	}
 	r.Extra["nonconstant_shifts_in_engine"] = n
+}
+
+// bitTestOnly: every use of the shift is an AND whose every use is a comparison with the constant 0.
+func bitTestOnly(sh *ssa.BinOp) bool {
+	if c, ok := constInt(sh.X); !ok || c != 1 {
+		if cv, isConv := sh.X.(*ssa.Convert); !isConv {
+			return false
+		} else if c, ok := constInt(cv.X); !ok || c != 1 {
+			return false
+		}
+	}
+	refs := sh.Referrers()
+	if refs == nil || len(*refs) == 0 {
+		return false
+	}
+	for _, u := range *refs {
+		and, ok := u.(*ssa.BinOp)
+		if !ok || and.Op != token.AND {
+			return false
+		}
+		ar := and.Referrers()
+		if ar == nil || len(*ar) == 0 {
+			return false
+		}
+		for _, cu := range *ar {
+			if _, isDbg := cu.(*ssa.DebugRef); isDbg {
+				continue
+			}
+			cmp, ok := cu.(*ssa.BinOp)
+			if !ok {
+				return false
+			}
+			switch cmp.Op {
+			case token.EQL, token.NEQ, token.GTR:
+			default:
+				return false
+			}
+			other := cmp.Y
+			if other == ssa.Value(and) {
+				other = cmp.X
+			}
+			if z, ok := constInt(other); !ok || z != 0 {
+				return false
+			}
+		}
+	}
+	return true
 }
 
 // ---- R01d ---------------------------------------------------------------------------------------
